@@ -95,3 +95,86 @@ def permute(s, rng):
     l = list(s)
     rng.shuffle(l)
     return "".join(l)
+
+
+def unicode_signature_sample(per_class=3, limit=0x30000):
+    """representatives of every distinct behaviour class of CPython's character predicates / case maps among the
+    non-ASCII code points (so that a test narrowed to, or widened from, its ASCII meaning is hit):
+    first `per_class` code points of each signature"""
+    seen = {}
+    out = []
+    for cp in range(128, limit):
+        if 0xD800 <= cp <= 0xDFFF:
+            continue
+        c = chr(cp)
+        up = c.upper()
+        sig = (c.isdigit(), c.isdecimal(), c.isnumeric(), c.isspace(), c.isalpha(), c.isupper(), c.islower(), c.isalnum(),
+               c.isprintable(), c.isidentifier(), up.isascii() and up != c, c.lower().isascii() and c.lower() != c, len(up), c in "\x85\u2028\u2029")
+        k = seen.get(sig, 0)
+        if k < per_class:
+            seen[sig] = k + 1
+            out.append(cp)
+    return out
+
+
+def ws_layouts(s, rng=None):
+    """raw constructor arguments that normalise to the word s: white space the API documents it strips"""
+    out = [s + "\n", " ".join(s[i:i + 10] for i in range(0, len(s), 10)) + " ", "\t" + s, s[:len(s) // 2] + "\n" + s[len(s) // 2:],
+           " \t " + s[:3] + "  " + s[3:] + "\r\n"]
+    if rng is not None:
+        k = rng.randint(0, len(s))
+        out.append(s[:k] + rng.choice([" ", "\n", "\t", "\x0b", "\x0c", "\r"]) * rng.randint(1, 4) + s[k:])
+    return out
+
+
+def large_regime():
+    """long sequences whose counts leave the ranges small sequences live in (> 127 / > 255 charged or neutral residues,
+    net charge beyond +-127, length > 256): where narrow integer types, identity-vs-equality of ints and the like differ"""
+    return ["K" * 128, "K" * 129, "E" * 130, "E" * 200, "KE" * 70, "K" * 150 + "E" * 150, "KRG" * 100, "EKEKDRRDEEKK" * 25,
+            "G" * 257, "GS" * 150, "Q" * 300, "G" * 256, "K" + "G" * 256, "KD" * 129, "R" * 260 + "D" * 3, "GSKE" * 70 + "G"]
+
+
+def two_charge_seqs(nmax, step=1):
+    """exactly two charged residues at every length 2..nmax (ends), all three sign pairs"""
+    for n in range(2, nmax + 1, step):
+        for a, b in (("K", "E"), ("R", "K"), ("D", "E")):
+            yield a + "G" * (n - 2) + b
+
+
+def ws_lines(lines, rng):
+    """the same block with every `q <name> <SEQ> ...` line turned into `mkq <raw> <name> ...` where raw is a white-space layout of
+    SEQ: the object is built from the raw string by the public constructor, the answers must be those of the normalised word"""
+    from .real import hex6
+    out = []
+    k = rng.randint(0, 5)
+    for l in lines:
+        t = l.split(" ")
+        if t[0] == "q" and len(t) >= 3 and t[2].isalpha():
+            lay = ws_layouts(t[2], rng)
+            out.append(" ".join(["mkq", hex6(lay[k % len(lay)]), t[1]] + t[3:]))
+        else:
+            out.append(l)
+    return out
+
+
+# sequences whose own delta is 1.0-1.1 x the heuristic delta-max on the pinned tree (kappa() reports exactly 1.0 for them):
+# all K/E/G words of length <= 9 with that property were enumerated once; a spread of them is kept here
+CLAMP_BAND = ["GKKKGG", "GEEGEG", "KKEEEGK", "KEEEGGK", "KEGEGEK", "KGGEEEK", "KGGGGGK", "EKKGKGE", "EGKKKEE", "EGGGGGE", "GKKKKKG",
+              "KKEEGEEK", "KEEEEEGK", "KGEEEEGK", "KGGEEEGK", "EKKKKKGE", "EEGKKKKG", "EGKKKKGE", "GEEEEEGK", "KGGEEEGGK",
+              "KEGSGSGSGSDR", "DGPGGGK", "EGKKKKGE", "KGEEEEGK"]
+
+
+def structured_frozen(s):
+    """frozen sets tied to the charge classes of s: all neutral / all positive / all negative / all charged positions,
+    each also with one position left free"""
+    pos = [i for i, c in enumerate(s) if c in "KR"]
+    neg = [i for i, c in enumerate(s) if c in "DE"]
+    neu = [i for i, c in enumerate(s) if c not in "KRDE"]
+    out = []
+    for grp in (neu, pos, neg, pos + neg, neu + pos, neu + neg):
+        if grp:
+            out.append(set(grp))
+            if len(grp) > 1:
+                out.append(set(grp[1:]))
+                out.append(set(grp[:-1]))
+    return out
